@@ -16,9 +16,20 @@ RULE = (
 )
 ASSUMPTIONS = ["reference CRC (two cross-checked implementations) and own header arithmetic are the oracle"]
 GATES = ["serialize_checked", "reparse_checked", "frame_roundtrip_checked", "repr_checked", "lengths_enumerated",
-         "alias_families", "reader_roundtrip_checked", "noncanonical_source_checked", "frame_as_payload"]
+         "alias_families", "reader_roundtrip_checked", "noncanonical_source_checked", "frame_as_payload",
+         "msm_mask_limit_shapes"]
 
 NASTY = bytes([0x27, 0x22, 0x5C, 0x00, 0x0A, 0x0D, 0x7F, 0x80, 0xFF, 0x7B, 0x7D, 0x25])
+
+
+def parses(payload):
+    from pyrtcm import RTCMReader
+
+    try:
+        RTCMReader.parse(refcrc.frame(payload))
+        return True
+    except Exception:
+        return False
 
 
 _FLUSH = []
@@ -223,6 +234,24 @@ def run(ctx):
             except refmodel.DefinitionError:
                 break
             one(ctx, enc.payload, identity)
+            if j < 3 and refmodel.is_msm_identity(identity):
+                # MSM shapes at the standard's limit: satellites x signals == 64 exactly (and 63)
+                nsat, nsig = rng.choice(((16, 4), (8, 8), (32, 2), (64, 1), (2, 32), (4, 16), (21, 3), (9, 7)))
+                try:
+                    big = refmodel.build(identity, rng, "random", "small", "random", force={
+                        "DF394": sum(1 << b for b in rng.sample(range(64), nsat)),
+                        "DF395": sum(1 << b for b in rng.sample(range(32), nsig)),
+                        "DF396": rng.getrandbits(nsat * nsig) & rng.getrandbits(nsat * nsig) | 1})
+                except (refmodel.DefinitionError, KeyError):
+                    big = None
+                if big is not None and len(big.payload) <= 1023:
+                    if not parses(big.payload):
+                        ctx.violation("valid-frame-not-parsed", f"{identity} with {nsat} satellites x {nsig} signals "
+                                      f"(cell mask of {nsat * nsig} bits): the frame of a well-formed message is rejected",
+                                      {"payload": big.payload.hex(), "label": identity + "+64cells"})
+                        return
+                    one(ctx, big.payload, identity + "+64cells")
+                    ctx.hit("msm_mask_limit_shapes")
             if j < 4:
                 tgt = rng.choice((255, 256, 511, 512, 1022, 1023))
                 if len(enc.payload) <= tgt:
@@ -236,4 +265,7 @@ def run(ctx):
 
 def replay(ctx, p):
     monitors.install_crc_monitor()
+    if p.get("label", "").endswith("+64cells") and not parses(bytes.fromhex(p["payload"])):
+        ctx.violation("valid-frame-not-parsed", f"{p['label']}: the frame of a well-formed message is rejected", p)
+        return
     one(ctx, bytes.fromhex(p["payload"]), p.get("label", "replay"))
